@@ -9,7 +9,8 @@ from ..harness import Sub, Violation, Inconclusive, crash_is_violation
 from ..oracles import bspl
 
 PROPERTY = "C09"
-HANG_SECONDS = 40.0
+HANG_SECONDS = 60.0
+LINE_BUDGET = 1000000000
 RULE = ("Hypothesis-generated 1-D spline spaces (degree 1-10, 1-12 cells, clamped/periodic, uniform/non-uniform "
         "breaks, uniform-cubic fast path incl. 1-4 cells) and data vectors.  Oracle: exact integrals of every "
         "basis function (scipy BSpline.integrate on the knots the path uses; periodic spaces compared on the "
